@@ -275,6 +275,13 @@ func filterIgnored(
 ) ([]diagnostic, error) {
 	couldHaveMatched := func(ig *lineIgnore) bool {
 		for _, c := range ig.Checks {
+			if m, _ := filepath.Match(c.String(), "u1000"); m {
+				// U1000 exempts the whole directive (see below), wherever
+				// it occurs in the list of checks.
+				return false
+			}
+		}
+		for _, c := range ig.Checks {
 			if c.String() == "u1000" {
 				// We never want to flag ignores for U1000,
 				// because U1000 isn't local to a single
